@@ -48,7 +48,7 @@ Next1 ==
        [] k = "StorFail" -> Flag(Use(e)) /\ d' = [d EXCEPT !.running = d.running \ {H(e)}]   \* the device left the running state by itself
        [] k = "StorAppend" -> Flag(Use(e) \o If(H(e) \notin d.running, "AppendOutsideStartStop")) /\ d' = d
        [] k = "CamFrame" -> Flag(Use(e) \o If(H(e) \notin d.running, "FrameOutsideStartStop")) /\ d' = d
-       [] k = "CamTrig" -> Flag(Use(e)) /\ d' = d
+       [] k \in {"CamTrig", "DevUse"} -> Flag(Use(e)) /\ d' = d     \* (DevUse: set / get / get_meta / get_shape / reserve)
        [] k = "ThreadStart" -> d' = [d EXCEPT !.alive = d.alive \cup {e.name}] /\ NoFlag
        [] k = "ThreadExit" -> d' = [d EXCEPT !.alive = d.alive \ {e.name}] /\ NoFlag
        [] k = "Api" /\ e.ph = "call" -> d' = (IF e.op = "start" THEN [d EXCEPT !.active = TRUE] ELSE d) /\ NoFlag
